@@ -11,7 +11,7 @@ import math
 from typing import Any, Optional, SupportsInt, Union
 
 from elementpath.aliases import XPath2ParserType
-from elementpath.helpers import FloatArgType, NUMERIC_INF_OR_NAN, INVALID_NUMERIC, \
+from elementpath.helpers import FloatArgType, NUMERIC_INF_OR_NAN, \
     LazyPattern, collapse_white_spaces
 from .any_types import AnyAtomicType
 from .untyped import UntypedAtomic
@@ -51,7 +51,8 @@ class Float(float, AnyAtomicType):
                         return float_nan
                     except NameError:
                         pass
-            elif value.lower() in INVALID_NUMERIC:
+            elif cls.pattern.match(value) is None:
+                # float() accepts more than the lexical space ('1_0', 'nan', non-ASCII digits)
                 raise cls._invalid_value(value)
         elif math.isnan(value):
             try:
